@@ -275,40 +275,91 @@ theorem resetWal_vinv (m : Mem) (E : List (Option Emb)) (hv : VInv m E) (hd : m.
     show m.pendingInserts = 0
     rw [hv.pi, countInserts_onlyLex _ (hv.d hd)]) rfl rfl rfl rfl rfl (Or.inl rfl)).vinv hv
 
-theorem doctor_vinv (m : Mem) (E : List (Option Emb)) (hv : VInv m E) (vac rt rl : Bool) (a b c d : Nat) :
-    VInv (m.doctor vac rt rl false a b c d).1 E := by
+/-- `rebuild_indexes(&[], &[])` on a handle that differs from `m` only in having vectors switched on
+    (and possibly its index loaded from the file): the doctor's requested vector rebuild -/
+theorem rebuildNil_forced (m : Mem) (E : List (Option Emb)) (hv : VInv m E) (m' : Mem) (hf : m'.frames = m.frames)
+    (hp : m'.pending = m.pending) (hpi : m'.pendingInserts = m.pendingInserts) (hd : m'.dirty = m.dirty)
+    (hlex : m'.lexEnabled = true) (hvl : vecL m' = vecL m) (hve : m'.vecEnabled = true) (ft : Nat) :
+    VInv (m'.rebuildIndexes [] [] ft) E ∧ (m'.rebuildIndexes [] [] ft).dirty = m.dirty := by
+  obtain ⟨rf, ⟨l, hl, rp⟩, rpi, rd, rlex, rve, rpvm, rT, _⟩ := rebuildIndexes_vec m' [] [] ft hlex
+  obtain ⟨r1, r2, r3⟩ := rT hve
+  have hents : ents m' [] = vecL m := by
+    unfold ents
+    rw [List.append_nil, hvl, hf, List.filter_eq_self]
+    intro e he
+    exact ((hv.mem e).mp he).1
+  have hvr : vecL (m'.rebuildIndexes [] [] ft) = vecL m := by unfold vecL; rw [r1]; exact hents
+  have hpe : pendEmbs (m'.rebuildIndexes [] [] ft).pending = pendEmbs m.pending := by
+    rw [rp, hp, pendEmbs_append, pendEmbs_onlyLex l hl, List.append_nil]
+  refine ⟨?_, by rw [rd, hd]⟩
+  exact {
+    ok := by
+      rw [rf, hf, rp, hp]
+      intro r hr
+      rcases List.mem_append.mp hr with hr | hr
+      · exact hv.ok r hr
+      · rw [hl r hr]; trivial
+    lenE := by rw [rf, hf]; exact hv.lenE
+    pend := by rw [rf, hf, hpe]; exact hv.pend
+    mem := fun e => by rw [hvr, rf, hf]; exact hv.mem e
+    nodup := by rw [hvr]; exact hv.nodup
+    pi := by rw [rpi, hpi, rp, hp, countInserts_append, countInserts_onlyLex l hl, hv.pi]; rfl
+    pv := by rw [r2, hvr]; exact hents
+    g := by rw [rve, r3, hve]
+    lex := rlex
+    d := fun h => by
+      rw [rd, hd] at h
+      rw [rp, hp]
+      intro r hr
+      rcases List.mem_append.mp hr with hr | hr
+      · exact hv.d h r hr
+      · exact hl r hr
+    b := fun _ => by rw [rve, hve]
+    b' := fun _ => by rw [rpvm, r3]
+    a := fun _ => by rw [rve, hve] }
+
+theorem doctorRebuild_vinv (m : Mem) (E : List (Option Emb)) (hv : VInv m E) (hd : m.dirty = false) (rv : Bool) (ft : Nat) :
+    VInv (m.doctorRebuild rv ft) E := by
+  unfold Mem.doctorRebuild
+  cases rv with
+  | true =>
+    simp only [if_true]
+    have hvl : vecL ({ m with vecEnabled := true, vecManifest := false, vec := if (m.vec.isNone && m.vecManifest) = true then m.pVec else m.vec } : Mem) = vecL m := by
+      show (if (m.vec.isNone && m.vecManifest) = true then m.pVec else m.vec).getD [] = vecL m
+      split
+      · exact hv.pv
+      · rfl
+    obtain ⟨h1, h2⟩ := rebuildNil_forced m E hv ({ m with vecEnabled := true, vecManifest := false, vec := if (m.vec.isNone && m.vecManifest) = true then m.pVec else m.vec } : Mem) rfl rfl rfl rfl hv.lex hvl rfl ft
+    exact resetWal_vinv _ E h1 (by rw [h2]; exact hd)
+  | false =>
+    simp only [Bool.false_eq_true, if_false]
+    have hpre : VInv (if (m.vecEnabled && m.vec.isNone && m.vecManifest) = true then { m with vec := m.pVec } else m) E ∧
+        (if (m.vecEnabled && m.vec.isNone && m.vecManifest) = true then ({ m with vec := m.pVec } : Mem) else m).dirty = false := by
+      split
+      · exact ⟨(VLe.vinv (m := m) ⟨rfl, id, rfl, id, id, rfl, rfl, hv.pv, rfl, rfl, Or.inl rfl⟩ hv), hd⟩
+      · exact ⟨hv, hd⟩
+    have hr := rebuildNil_vinv _ E hpre.1 ft
+    exact resetWal_vinv _ E hr (by rw [rebuildNil_dirty _ ft hpre.1.lex]; exact hpre.2)
+
+theorem doctor_vinv (m : Mem) (E : List (Option Emb)) (hv : VInv m E) (vac rt rl rv : Bool) (a b c d : Nat) :
+    VInv (m.doctor vac rt rl rv a b c d).1 E := by
   obtain ⟨h1, h1d⟩ := dropHandle_vinv m E hv a
-  unfold Mem.doctor
-  split
-  · have h2 : VInv ((m.dropHandle a).openFrom b) E ∧ ((m.dropHandle a).openFrom b).dirty = false := by
-      rw [openFrom_eq]; exact openFromCfg_vinv false _ E h1 b (Or.inr h1d)
-    have h3 : VInv (m.doctorStage1 vac a b c) E ∧ (m.doctorStage1 vac a b c).dirty = false := by
-      unfold Mem.doctorStage1
-      split
-      · exact vacuum_vinv _ E h2.1 b c
-      · exact h2
-    have h4 : VInv ((m.doctorStage1 vac a b c).doctorStage2 (rt || rl || false) false c) E := by
-      unfold Mem.doctorStage2
-      split
-      · unfold Mem.doctorRebuild
-        simp only [Bool.false_eq_true, if_false]
-        have hpre : VInv (if ((m.doctorStage1 vac a b c).vecEnabled && (m.doctorStage1 vac a b c).vec.isNone && (m.doctorStage1 vac a b c).vecManifest) = true
-            then { (m.doctorStage1 vac a b c) with vec := (m.doctorStage1 vac a b c).pVec } else (m.doctorStage1 vac a b c)) E ∧
-            (if ((m.doctorStage1 vac a b c).vecEnabled && (m.doctorStage1 vac a b c).vec.isNone && (m.doctorStage1 vac a b c).vecManifest) = true
-            then { (m.doctorStage1 vac a b c) with vec := (m.doctorStage1 vac a b c).pVec } else (m.doctorStage1 vac a b c)).dirty = false := by
-          split
-          · refine ⟨(VLe.vinv (m := m.doctorStage1 vac a b c) ⟨rfl, id, rfl, id, id, rfl, rfl, h3.1.pv, rfl, rfl, Or.inl rfl⟩ h3.1), h3.2⟩
-          · exact h3
-        have hr := rebuildNil_vinv _ E hpre.1 c
-        exact resetWal_vinv _ E hr (by rw [rebuildNil_dirty _ c hpre.1.lex]; exact hpre.2)
-      · exact h3.1
-    obtain ⟨h5, h5d⟩ := dropHandle_vinv _ E h4 c
-    show VInv ((((m.doctorStage1 vac a b c).doctorStage2 (rt || rl || false) false c).dropHandle c).openFrom d) E
-    rw [openFrom_eq]
-    exact (openFromCfg_vinv false _ E h5 d (Or.inr h5d)).1
-  · show VInv ((m.dropHandle a).openFrom d) E
-    rw [openFrom_eq]
-    exact (openFromCfg_vinv false _ E h1 d (Or.inr h1d)).1
+  have h2 : VInv ((m.dropHandle a).openFrom b) E ∧ ((m.dropHandle a).openFrom b).dirty = false := by
+    rw [openFrom_eq]; exact openFromCfg_vinv false _ E h1 b (Or.inr h1d)
+  have h3 : VInv (m.doctorStage1 vac a b c) E ∧ (m.doctorStage1 vac a b c).dirty = false := by
+    unfold Mem.doctorStage1
+    split
+    · exact vacuum_vinv _ E h2.1 b c
+    · exact h2
+  have h4 : VInv ((m.doctorStage1 vac a b c).doctorStage2 (rt || rl || rv) rv c) E := by
+    unfold Mem.doctorStage2
+    split
+    · exact doctorRebuild_vinv _ E h3.1 h3.2 rv c
+    · exact h3.1
+  obtain ⟨h5, h5d⟩ := dropHandle_vinv _ E h4 c
+  show VInv ((((m.doctorStage1 vac a b c).doctorStage2 (rt || rl || rv) rv c).dropHandle c).openFrom d) E
+  rw [openFrom_eq]
+  exact (openFromCfg_vinv false _ E h5 d (Or.inr h5d)).1
 
 theorem create_vinv : VInv Mem.create [] :=
   { ok := fun r hr => by cases hr
@@ -342,13 +393,12 @@ def embRun (E : List (Option Emb)) : List (Op × Out) → List (Option Emb)
 
 /-- what C14 assumes about one call: a put that passes embeddings passes at least one non-empty
     vector (and lists the chunk dimensions it passed), an update passes a non-empty embedding or none
-    and no chunk embeddings, no `commit_skip_indexes` (C40), no doctor run that rebuilds the vector
-    index (C21) -/
+    and no chunk embeddings, no `commit_skip_indexes` (it clears the persisted index until
+    `finalize_indexes` runs: membership across that window is property C40) -/
 def OpOk : Op → Prop
   | .put a _ => (∃ x ∈ embsOf a, x.isSome = true) → embDims a ≠ []
   | .update _ u _ => UpdOk u
   | .commitSkipIndexes => False
-  | .doctor _ _ _ rv _ _ _ _ => rv = false
   | _ => True
 
 theorem ite_self' {α : Type} (c : Prop) [Decidable c] (a : α) : (if c then a else a) = a := by split <;> rfl
@@ -370,15 +420,14 @@ theorem stepCfg_vinv (m : Mem) (E : List (Option Emb)) (op : Op) (hv : VInv m E)
   | beginBatch d ws => exact (beginBatch_vle m d ws).vinv hv
   | endBatch => exact (endBatch_vle m).vinv hv
   | commitSkipIndexes => exact absurd hok id
-  | finalizeIndexes ft => exact rebuildNil_vinv m E hv ft
+  | finalizeIndexes ft =>
+    exact (rebuildNil_vinv m E hv ft).congr rfl rfl rfl rfl rfl rfl rfl rfl rfl (Or.inl rfl)
   | vacuum a b =>
     show VInv (m.vacuum a b).1 (if (m.vacuum a b).2.isAck then E else E)
     rw [ite_self']; exact (vacuum_vinv m E hv a b).1
   | doctor v rt rl rv a b c d =>
-    have hrv : rv = false := hok
-    subst hrv
-    show VInv (m.doctor v rt rl false a b c d).1 (if (m.doctor v rt rl false a b c d).2.isAck then E else E)
-    rw [ite_self']; exact doctor_vinv m E hv v rt rl a b c d
+    show VInv (m.doctor v rt rl rv a b c d).1 (if (m.doctor v rt rl rv a b c d).2.isAck then E else E)
+    rw [ite_self']; exact doctor_vinv m E hv v rt rl rv a b c d
   | ticket s c b f =>
     show VInv (m.applyTicket s c b f).1 (if (m.applyTicket s c b f).2.isAck then E else E)
     rw [ite_self']; exact (applyTicket_vle m s c b f).vinv hv
